@@ -8,14 +8,22 @@ Tie (three parts, all on the working tree on every run):
     generated server class and EVERY method id (+ unknown ones, unknown protocols); user methods are scripted
     (succeed with a well-typed value, stub, raise RMC errors / mapped / unmapped / subclassed exceptions,
     wrongly typed / incomplete results), bodies valid / truncated at every length / extended / random.
+    Wrongly typed RESULTS at every position of every result type (harness/rmc_results.py): the well-typed result of a
+    method with ONE value replaced / inserted — the whole result, a field of a multi-value response, a list element, a
+    map key / value, an attribute of a returned structure (at any depth) — by a value from a catalogue of every
+    builtin kind (None, bool, ints in and out of range, floats, text incl. non-ASCII / unencodable / too long, bytes,
+    bytearray, NEX value objects, flat lists / tuples / dicts, opaque objects). The Lean model (`RmcResult.check`)
+    predicts which exception the validation / encoder raises (name and class); the property's own "wrongly typed"
+    relation (`incompatible`, Lean twin `incompat`, proved to be rejected by the model) demands an error response.
     For every request the compiled model (`nxdrv_C11`, line `full`) must predict both what the real
     `server.handle()` did and the exact bytes sent back (or silence, or that the exception leaves the loop).
  3. oracle on the real code = the property's outcome table, judged independently of the model.
 """
-import os, random, struct, multiprocessing, importlib
+import os, random, struct, multiprocessing, importlib, collections
 import vf
 import rmc_servers as T
 import rmc_server_sim as R
+import rmc_results as RES
 from nintendo.nex import errors, settings as nexsettings
 
 LEVEL = "proof"
@@ -48,7 +56,7 @@ def user_token(script, m):
         return "raise:" + R.EXC[script["exc"]][1]
     if mode == "wrong": return "ret:wrong:type"
     if mode == "missing": return "ret:missing:other"
-    return None  # ok / partial: needs what the real encoding did
+    return None  # ok / partial / wrongpos: needs what the real encoding did
 
 
 def srv_line(si):
@@ -104,6 +112,13 @@ def cases_for_server(si, idx, rng, tier, minor, all_codes):
                 pc = mk_case(si, idx, m["id"], body, script("partial", k=k), "partial:" + m["resp"], "ok", rng)
                 cases.append(pc)
                 tails.append([pc, mk_case(si, idx, m["id"], body, script("ok"), "ok-after-failure", "ok", rng)])
+        # ONE wrongly typed value at a position of the (otherwise well-typed) result
+        if m["resp"] in ("m", "s"):
+            for sc, kind in wrong_result_scripts(si, m, S, rng, 3 if quick else 24, 2 if quick else 4):
+                wc = mk_case(si, idx, m["id"], body, script("wrongpos", **sc), kind, "ok", rng)
+                cases.append(wc)
+                if rng.random() < (0.15 if quick else 0.05):
+                    tails.append([wc, mk_case(si, idx, m["id"], body, script("ok"), "ok-after-failure", "ok", rng)])
         excs = list(R.MAPPED) + (R.SUBCLASSED + R.UNMAPPED if not quick else rng.sample(R.SUBCLASSED, 2) + rng.sample(R.UNMAPPED, 3))
         for name in excs:
             cases.append(mk_case(si, idx, m["id"], body, script("raise", exc=name), "raise:" + R.EXC[name][1], "ok", rng))
@@ -158,6 +173,38 @@ def cases_for_server(si, idx, rng, tier, minor, all_codes):
     return cases
 
 
+_SEEN_SLOTS = collections.Counter()
+
+
+def wrong_result_scripts(si, m, S, rng, npos, nval):
+    """scripts (+ case kind) for results of method `m` that are well typed except at one position"""
+    out = []
+    try:
+        module = importlib.import_module("nintendo.nex." + si["module"])
+        b = R.builder(si["module"])
+        for _ in range(2 if npos <= 3 else 4):       # a few different well-typed results (list lengths, ... vary)
+            vseed = rng.randrange(1 << 30)
+            b.rng = random.Random(vseed + 1)
+            rv = b.response_value(si["class"], m["user"], m["resp"], m["fields"])
+            if not b.encodes(si["class"], m["user"], m["resp"], m["fields"], rv, S): continue
+            poss = RES.result_positions(m, module, rv, S)
+            # positions of declared types seen rarely so far (in this worker) first: deep, rare types (variant inside a map
+            # inside a structure, s8, ...) are reached as reliably as the ubiquitous top-level list
+            keyed = sorted(poss, key=lambda p: rng.random() ** (1.0 + _SEEN_SLOTS[(RES.slot_token(p[2], S).split(".")[0], p[1][:3])]))
+            pick = keyed[-npos:]
+            for path, where, slot, required, topcls in pick:
+                stok = RES.slot_token(slot, S)
+                _SEEN_SLOTS[(stok.split(".")[0], where[:3])] += 1
+                hashable = bool(path) and path[-1][0] == "mkey"
+                for w in RES.pick_wrong(rng, stok, nval, hashable):
+                    if where == "top.cls" and isinstance(RES.token_value(w), topcls): continue
+                    out.append(({"vseed": vseed, "path": path, "w": w, "slot": stok, "where": where},
+                                "wrong-result-%s:%s" % (stok.split(".")[0], where)))
+    except (R.V.Unbuildable, RES.Unknown):
+        pass
+    return out
+
+
 def unknown_protocol_cases(srvinfos, rng, n):
     used = {s["protocol"] for s in srvinfos}
     cs = []
@@ -186,6 +233,7 @@ def _worker(job):
     """job = (kind, srvinfos, seed, tier, minor, all_codes, extra) -> (srvinfos, cases, results, minor)"""
     kind, srvinfos, seed, tier, minor, all_codes, extra = job
     rng = random.Random(seed)
+    _SEEN_SLOTS.clear()
     if kind == "server":
         cases = unknown_protocol_cases(srvinfos, rng, 2) + cases_for_server(srvinfos[0], 0, rng, tier, minor, all_codes)
         jobs = [(srvinfos, cases, minor)]
@@ -218,7 +266,7 @@ def fresh_wanted(case, res, rng):
     if res["sent"] and len(res["sent"]) == 1:
         a = parse_answer(bytes.fromhex(res["sent"][0]))
         if a is None or a["ok"]: return True
-    if case["kind"].startswith(("partial", "ok", "random-body", "wrong-type")): return True
+    if case["kind"].startswith(("partial", "ok", "random-body", "wrong-type", "wrong-result")): return True
     return rng.random() < 0.1
 
 
@@ -274,6 +322,17 @@ def expectation(case, si, res):
         if m["resp"] == "o": return answer(("err", PYCODE["type"]))
         return answer(("err", PYCODE["other"]))
     if res["value_error"]: return ("skip", "no value")
+    if mode == "wrongpos":
+        # the property: a wrongly typed result is answered with the PythonCore code of the exception that the
+        # validation / encoder raises for it — stated on Python's types (RES.incompatible), not on what the encoder did
+        w = RES.token_value(sc["w"])
+        if sc["where"].startswith("top."):
+            T = eval(m["expected"], importlib.import_module("nintendo.nex." + si["module"]).__dict__)
+            if not isinstance(w, T): return answer(("err", PYCODE["other"]))       # generated isinstance check: RuntimeError
+        if sc["where"] == "in1" and w is None: return answer(("err", PYCODE["other"]))   # check_required: ValueError
+        c = RES.incompatible(sc["slot"], w)
+        if c: return answer(("err", PYCODE[c]))
+        mode = "partial"    # a value the encoder duck-types (bool for int, tuple for list, anything for bool ...): observed
     if mode == "partial":
         # a late value of the result has the wrong type: which exception its encoder raises depends on the type
         # (struct.error, TypeError, AttributeError; `bool` accepts anything) -> the class is observed; the body of a
@@ -295,6 +354,11 @@ def judge_case(case, si, res):
     if exp[0] == "skip": return None
     sent = [bytes.fromhex(x) for x in res["sent"]]
     who = "%s.%s method %d (%s)" % (case["module"], case["class"], case["method"], case["kind"])
+    sc = case["script"]
+    if sc["mode"] == "wrongpos":
+        w = RES.token_value(sc["w"])
+        who += " returning a result with the %s value %.60r at %s (declared %s)" % (
+            type(w).__name__, w, "/".join(str(x) for st in sc["path"] for x in st) or "the top level", sc["slot"])
     if res["hang"]: return ("hang", "%s: the receive loop did not return to recv()" % who)
     if res["loop"] != "alive":
         return ("connection-terminated", "%s: the receive loop ended with %s" % (who, res["loop"]))
@@ -408,6 +472,7 @@ def run(ctx):
 
     # model lines: every connection's real request sequence, in order, through the model's `serve` (sbegin / sreq)
     lines, index = [], []
+    wlines, windex = [], []     # wrongly typed results: the model's exception (by name) and the Lean twin of `incompatible`
     for sid, (srvinfos, cases, results, minor, fresh) in enumerate(sessions):
         lines.append("clear"); index.append(None)
         for si in srvinfos:
@@ -417,7 +482,14 @@ def run(ctx):
             si = srvinfos[case["srv"]] if case["srv"] is not None else None
             m = next((x for x in si["methods"] if x["id"] == case["method"]), None) if si else None
             ut = user_token(case["script"], m)
-            if ut is None:
+            if ut is None and case["script"]["mode"] == "wrongpos":
+                sc = case["script"]
+                o = res.get("observed") or "ret:-"
+                ut = "retv:%s:%s:%s:%s" % (sc["where"], sc["slot"], sc["w"], o[4:] if o.startswith("ret:") else "-")
+                if not res.get("skipped"):
+                    wlines.append("rchk %s %s %s" % (sc["where"], sc["slot"], sc["w"])); windex.append((sid, cid, "chk"))
+                    wlines.append("rinc %s %s" % (sc["slot"], sc["w"])); windex.append((sid, cid, "inc"))
+            elif ut is None:
                 o = res.get("observed") or "ret:-"
                 if case["script"]["mode"] == "ok" and not o.startswith("ret:"): o = "ret:-"
                 ut = "ret:good:" + o
@@ -425,8 +497,28 @@ def run(ctx):
             if ex == "observed":
                 ex = "ok" if (res.get("called") or not (m and m["supported"])) else (res.get("observed") or "ok")
             lines.append("sreq %s %s %s" % (case["datagram"], ex, ut)); index.append((sid, cid))
-    outs = ctx.driver().batch(lines)
+    outs = ctx.driver().batch(lines + wlines)
+    wouts, outs = outs[len(lines):], outs[:len(lines)]
     n_diff, first = 0, None
+    n_wrong = n_wrong_incompat = 0
+    for line, o, (sid, cid, what) in zip(wlines, wouts, windex):
+        srvinfos, cases, results, minor, fresh = sessions[sid]
+        case, res = cases[cid], results[cid]
+        if res["value_error"]: continue
+        sc = case["script"]
+        if what == "inc":
+            mine = RES.incompatible(sc["slot"], RES.token_value(sc["w"])) or "-"
+            if o != mine: raise vf.InfraError("the oracle's `incompatible` and Lean's `incompat` differ on %r: %s / %s" % (line, mine, o))
+            n_wrong += 1
+            if mine != "-": n_wrong_incompat += 1
+            continue
+        if o == "bad-op": raise vf.InfraError("driver rejected %r" % line[:120])
+        si = srvinfos[case["srv"]]
+        if not res["called"]: continue          # (response-less / extraction failed: the result was never produced)
+        real_t = res.get("observed_type") or "ok"
+        if o != real_t:
+            n_diff += 1
+            if first is None: first = (case, res, line + " -> " + o, "the real validation / encoder: " + real_t, minor, [s["class"] for s in srvinfos])
     n_cases = n_fresh = n_after_fail = 0
     for line, o, ix in zip(lines, outs, index):
         if ix is None:
@@ -476,6 +568,8 @@ def run(ctx):
             n_diff += 1
             if first is None: first = (case, res, o, real_h + " => " + real, minor, [s["class"] for s in srvinfos])
     ctx.extra["requests_compared_with_fresh_connection"] = n_fresh
+    ctx.extra["wrongly_typed_result_cases"] = n_wrong
+    ctx.extra["wrongly_typed_result_cases_the_property_calls_incompatible"] = n_wrong_incompat
     ctx.extra["successes_right_after_a_mid_encoding_failure"] = n_after_fail
     ctx.traces_validated = len(sessions)
     ctx.programs = len(servers)
